@@ -234,7 +234,7 @@ def space(tier):
                 # a copy landing exactly when the listening window ends, or one tick to either side
                 h["copies"].append([5.0 + rng.choice([-1, 0, 0, 1]) / (1 << 20), 6445])
         return {"hosts": hosts, "twice": rng.random() < 0.3}
-    sp.add("random", 14000 if tier == "quick" else 400_000, rnd)
+    sp.add("random", 14000 if tier == "quick" else 1_500_000, rnd)
 
     def each_bad(j, rng):
         cls = BAD[j % len(BAD)]
